@@ -13,6 +13,7 @@ CHECK = dict(
         dict(name="dnsserver", dir=D, src="C06/dnsserver", runs=[
             dict(name="quic", run="^TestVerifC06QUIC$", quick=4000, thorough=200000, shards_thorough=6),
             dict(name="quic-cuts", run="^TestVerifC06QUICCuts$", quick=0, thorough=0),
+            dict(name="sockets", run="^TestVerifC06Sockets$", quick=400, thorough=12000, shards_thorough=4),
         ]),
         dict(name="forward", dir=D + "/forward", src="C06/forward", runs=[
             dict(name="readmsg", run="^TestVerifC06UpstreamRead$", quick=4000, thorough=200000, shards_thorough=6),
